@@ -24,4 +24,4 @@ Deliverables in {wt}-out/:
   patch.diff   — `git diff` of the non-test change only (must apply to the pristine tree with `git apply`)
   demo/        — the demonstration file(s) with their path relative to the repo root preserved (e.g. demo/pkg/apply/filter/zz_demo_test.go)
   README.md    — which behaviour of the property breaks, what exactly is needed for it to manifest, the exact commands you ran (suite + demo, with and without the change) and their results
-{"VARIETY (round c): many people have already done this exercise for this property and the obvious spots are taken. Pick something DIFFERENT: an interplay of two packages, an option default or a rarely-set option, an error / early-return path, a boundary value (empty set, single element, zero timeout), concurrency or ordering between goroutines, or a helper OUTSIDE the listed files that the mechanism silently relies on (but the observable breakage must still be a violation of THIS property's statement). Avoid: moving the AddInvalidObject loop in applier.go, AddAbandonedObject ordering in prune.go, `statusChannel = nil` in runner.go, the Stalled condition of the Deployment ProgressDeadlineExceeded result, AppliedResourceUIDs, dropping the generation check in WaitTask. " if tag == "c" else ""}{"VARIETY: several people are doing this exercise for the same property. To avoid everyone picking the same spot, target a clause of the statement OTHER than its first / most obvious one, and a code site other than the most central function (glue code, option handling, an error path, a rarely-taken branch, a helper in another package that the mechanism relies on). " if tag == "b" else ""}Leave the worktree with the change applied. Your final message: a 5-10 line summary (what you changed, why the suite misses it, how the demo shows it).""")
+{"VARIETY (round c/d): many people have already done this exercise for this property and the obvious spots are taken. Pick something DIFFERENT: an interplay of two packages, an option default or a rarely-set option, an error / early-return path, a boundary value (empty set, single element, zero timeout), concurrency or ordering between goroutines, or a helper OUTSIDE the listed files that the mechanism silently relies on (but the observable breakage must still be a violation of THIS property's statement). Avoid: moving the AddInvalidObject loop in applier.go, AddAbandonedObject ordering in prune.go, `statusChannel = nil` in runner.go, the Stalled condition of the Deployment ProgressDeadlineExceeded result, AppliedResourceUIDs, dropping the generation check in WaitTask. " if tag in ("c", "d") else ""}{"Also already taken (round d): trimming the cycle error in Graph.Sort, retrying a DELETE with a fresh UID, destroySuccessful requiring all stored ids deleted, shallow edge-map copy in Sort + in-place Remove, SetGraph only without graph error, pending := w.Ids[:0], merging Merge's early returns, overwriting depends-on errors in DependencyGraph, unlocked alias in sendTimeoutEvents, missing return in InvAddTask, GetLegacyConditionsFn fallback to bare Kind, getCrashLoopingContainers early return / map iteration order, AddEdge without adjacency guard, memoised keys in ConfigMap.Store, onNamespaceDelete using GetNamespace, %v-wrapping of context errors in the polling engine or caching reader, dropping same-revision status events in the runner, shared scratch slice in inventory.Manager, stats counters kept in the printer object, DeleteFunc pointer assertion, less() comparing concatenated namespace+name. " if tag == "d" else ""}{"VARIETY: several people are doing this exercise for the same property. To avoid everyone picking the same spot, target a clause of the statement OTHER than its first / most obvious one, and a code site other than the most central function (glue code, option handling, an error path, a rarely-taken branch, a helper in another package that the mechanism relies on). " if tag == "b" else ""}Leave the worktree with the change applied. Your final message: a 5-10 line summary (what you changed, why the suite misses it, how the demo shows it).""")
